@@ -531,6 +531,13 @@ class Builder:
             self.dangling = f
             self._body(s.orelse, frame)
             self.dangling = self.dangling + sc.data['breaks']
+        elif isinstance(s, ast.For) and \
+                self._const_trips(s, frame) is not None:
+            # `for _ in range(<known small constant>)`: the body runs exactly
+            # that many times
+            self._expr(s.iter, frame)
+            for _ in range(self._const_trips(s, frame)):
+                self._body(s.body, frame)
         elif isinstance(s, (ast.For, ast.AsyncFor)):
             self._expr(s.iter, frame)
             head = self._emit('iter', s, frame)
@@ -739,6 +746,43 @@ class Builder:
                           ast.JoinedStr, ast.Compare, ast.BinOp)):
             return True
         return False
+
+    def _const_trips(self, s: ast.For, frame):
+        """number of iterations of `for x in range(N)` when N is a literal
+        or a parameter whose value is known at this inlining site (and the
+        body neither breaks, continues nor uses the loop variable)"""
+        it = s.iter
+        if s.orelse or not (isinstance(it, ast.Call) and
+                            isinstance(it.func, ast.Name) and
+                            it.func.id == 'range' and len(it.args) == 1 and
+                            not it.keywords):
+            return None
+        a = it.args[0]
+        n = None
+        if isinstance(a, ast.Constant) and isinstance(a.value, int) and \
+                not isinstance(a.value, bool):
+            n = a.value
+        elif isinstance(a, ast.Name):
+            from .model import walk_own
+            fn = frame.ctx.func
+            if a.id in fn.params and not any(
+                    isinstance(x, ast.Name) and x.id == a.id and
+                    isinstance(x.ctx, (ast.Store, ast.Del))
+                    for x in walk_own(fn.node)):
+                for k, v in frame.ctx.consts:
+                    if k == a.id and isinstance(v, int) and \
+                            not isinstance(v, bool):
+                        n = v
+        if n is None or not (0 <= n <= 4):
+            return None
+        tnames = {x.id for x in ast.walk(s.target) if isinstance(x, ast.Name)}
+        for st in s.body:
+            for x in ast.walk(st):
+                if isinstance(x, (ast.Break, ast.Continue)):
+                    return None
+                if isinstance(x, ast.Name) and x.id in tnames:
+                    return None
+        return n
 
     def _assign_null_split(self, s: ast.Assign, frame) -> bool:
         """`x = helper(...)` where the inlined helper returns None on some
@@ -1161,6 +1205,21 @@ class Builder:
                     isinstance(k.value.value, (str, bytes, int, bool,
                                                type(None))):
                 lits.append((k.arg, k.value.value))
+        # parameters left to a literal default are known at this site too
+        if not any(isinstance(a, ast.Starred) for a in e.args) and \
+                not any(k.arg is None for k in e.keywords):
+            fargs = t.func.node.args
+            allp = list(t.func.params)
+            dn = len(fargs.defaults)
+            given = set(pl[:len(e.args)]) | {k.arg for k in e.keywords}
+            for j, dflt in enumerate(fargs.defaults):
+                pi = len(fargs.posonlyargs) + len(fargs.args) - dn + j
+                if pi < len(allp) and allp[pi] in pl and \
+                        allp[pi] not in given and \
+                        isinstance(dflt, ast.Constant) and \
+                        isinstance(dflt.value, (str, bytes, int, bool,
+                                                type(None))):
+                    lits.append((allp[pi], dflt.value))
         ptypes = []
         for i, a in enumerate(e.args):
             if isinstance(a, ast.Starred):
